@@ -25,8 +25,8 @@ def crash_loop(ctx, exe, n, stride, max_crashes=40):
             ctx.tie_failures.append("harness run failed (rc=%d): %s" % (rc, out[-500:]))
             break
         h, lines = cases[-1]
-        where = re.search(r"\n(github.com/Lumerin-protocol/proxy-router/internal/[^\n(]*)\([^\n]*\n\t(/repo/[^\s]*)", out[m.end():])
-        site = where.group(2).replace("/repo/", "") if where else "?"
+        where = re.search(r"\n(github.com/Lumerin-protocol/proxy-router/internal/[^\n(]*)\([^\n]*\n\t(/[^\s]*/internal/[^\s]*)", out[m.end():])
+        site = where.group(2).replace(L.REPO + "/", "") if where else "?"
         crashes.append((site, m.group(1), h, [l for l in lines if l.startswith("> ")]))
         skip = int(h.split()[2])
         if len(crashes) >= max_crashes:
@@ -38,7 +38,7 @@ def crash_loop(ctx, exe, n, stride, max_crashes=40):
 def run(ctx):
     ctx.trusted_base += [
         "tools/gofacts c05.go: the guard tables of the message validation (minimum parameter counts, required hex widths, required JSON kinds per notify slot) and the parameter index every getter reads, regenerated from stratumv1_message/*.go into Gen/C05.lean",
-        "harness harness/proxy/verif_c05_test.go: (1) every hostile line through the real ParseStratumMessage with the decoded shape in the transcript; the Lean side recomputes the verdict from the shape (2) every hostile line in six phases (first line, mid-handshake from miner / pool, mining from miner / active pool / parked pool) through the real Proxy next to a second connection; a panic in any goroutine kills the process and is the violation",
+        "harness harness/proxy/verif_c05_test.go: (1) every hostile line through the real ParseStratumMessage with the decoded shape in the transcript; the Lean side recomputes the verdict from the shape (2) every hostile line in six phases, and every sequence of up to four well-formed requests (configure / subscribe / authorize / submit, a subscribe whose answer is late) in arbitrary protocol order, (first line, mid-handshake from miner / pool, mining from miner / active pool / parked pool) through the real Proxy next to a second connection; a panic in any goroutine kills the process and is the violation",
         "modelled, not verified: encoding/json decoding of a line into the message structs (the harness hands the Lean side the decoded shape); process liveness is observed, not proved",
     ]
     ctx.assumptions += ["Go runtime faults outside the modelled code (out of memory on a gigabyte line: bufio.ReadBytes is unbounded) are not exhibited"]
